@@ -62,3 +62,62 @@ pub struct Snapshot {
     pub mdns_resolve_in_flight: bool,
     pub mdns_browse_in_flight: bool,
 }
+
+/// The verdict of the transport on a received datagram.
+#[derive(Debug, Clone, Copy, PartialEq, Eq)]
+pub enum RxVerdict {
+    /// Handed over to the exchange layer (left in the RX slot for its owner)
+    Processed { new_exchange: bool },
+    /// A stand-alone acknowledgement: consumed by the transport
+    StandaloneAck,
+    /// A CloseSession status report: session removed
+    CloseSession,
+    /// Classified as duplicate (by message counter or by acknowledgement mismatch)
+    Duplicate,
+    NoSpaceSessions,
+    NoSpaceExchanges,
+    NoExchange,
+    NoSession,
+    /// Any other error (decoding, authentication, ...)
+    Error,
+}
+
+/// Events emitted by the (guarded) instrumentation points.
+#[derive(Debug, Clone, PartialEq, Eq)]
+pub enum Event {
+    /// The receive window of session `session_id` classified message counter `ctr`
+    RxCtr {
+        session_id: u32,
+        local_sess_id: u16,
+        ctr: u32,
+        accepted: bool,
+    },
+    /// The transport finished the synchronous handling of a received datagram
+    Rx {
+        peer: Address,
+        wire_sess_id: u16,
+        ctr: u32,
+        verdict: RxVerdict,
+    },
+}
+
+std::thread_local! {
+    static SINK: core::cell::RefCell<Option<std::boxed::Box<dyn FnMut(Event)>>> =
+        const { core::cell::RefCell::new(None) };
+}
+
+/// Install (or remove) the event sink of the current thread.
+pub fn set_sink(sink: Option<std::boxed::Box<dyn FnMut(Event)>>) {
+    SINK.with(|s| *s.borrow_mut() = sink);
+}
+
+/// Emit an event to the sink of the current thread, if any.
+pub fn emit(event: Event) {
+    SINK.with(|s| {
+        if let Ok(mut sink) = s.try_borrow_mut() {
+            if let Some(sink) = sink.as_mut() {
+                sink(event);
+            }
+        }
+    });
+}
